@@ -124,9 +124,18 @@ def oracle_system(system, created: List[Any], builder_made: bool) -> List[Tuple[
     from pydoctor import model
     bad: List[Tuple[str, str]] = []
     seen_ids = {}
+    def chain_name(o) -> str:
+        # the qualified name recomputed from the parent chain, independently of Documentable.fullName()
+        parts, n = [], 0
+        while o is not None and n < 1000:
+            parts.append(o.name)
+            o, n = o.parent, n + 1
+        return ".".join(reversed(parts))
     for k, o in system.allobjects.items():
         if o.fullName() != k:
             bad.append(("stale-key", f"allobjects[{k!r}] is {o!r}"))
+        elif chain_name(o) != k:
+            bad.append(("key-is-not-the-name-along-the-parent-chain", f"allobjects[{k!r}] is the object whose parents spell {chain_name(o)!r}"))
         if id(o) in seen_ids:
             bad.append(("registered-twice", f"{o!r} under {seen_ids[id(o)]!r} and {k!r}"))
         seen_ids[id(o)] = k
